@@ -82,8 +82,7 @@ fn limits(rng: &mut Rng) -> Lim {
             max_bytes: rng.below(12) as usize,
             max_arr: rng.below(6) as usize,
             max_depth: rng.below(5),
-            max_msg: 0,
-        },
+            max_msg: 0, named: 0 },
     }
 }
 
@@ -257,16 +256,25 @@ impl Prop for C02 {
                 } else {
                     b.extend(rng.bytes(body));
                 }
-                if ty == "ReadBytes" {
-                    // a limit is always configured unless the declared size is small
-                    lim.max_msg = if size <= 100_000 && rng.chance(1, 3) { 0 } else { *rng.pick(&[8usize, 64, 8192, 65535]) };
-                }
                 if rng.chance(1, 6) {
                     b = mutate(rng, &b);
                 }
                 if rng.chance(1, 10) {
                     b.truncate(rng.below(b.len() as u64 + 1) as usize);
                 }
+                if case % 16 == 7 {
+                    // every truncation of this message
+                    for p in all_prefixes(&b, 40) {
+                        out.push(format!("dec {} {} x{}", ty, Lim::default().show(), hex(&p)));
+                    }
+                }
+                if ty == "ReadBytes" {
+                    // read_bytes allocates what the (possibly mutated) header declares: unlimited only
+                    // when that is small
+                    let declared = if b.len() >= 8 { u32::from_le_bytes([b[4], b[5], b[6], b[7]]) } else { 0 };
+                    lim.max_msg = if declared <= 100_000 && rng.chance(1, 3) { 0 } else { *rng.pick(&[8usize, 64, 8192, 65535]) };
+                }
+                let _ = size;
                 out.push(format!("dec {} {} x{}", ty, lim.show(), hex(&b)));
             }
             // (ii''') the object-id dispatch of service messages
@@ -289,6 +297,42 @@ impl Prop for C02 {
                     let lim = limits(rng);
                     let m = if rng.chance(1, 2) { bytes } else { mutate(rng, &bytes) };
                     out.push(format!("msg {} {} x{}", id, lim.show(), hex(&m)));
+                }
+            }
+            // (ii+) systematic: the Variant mask sweep (all 256 masks x 8 shapes, enumerated completely by a quick run), and
+            //       every truncation of one short valid encoding / structure per case
+            {
+                // two points per case: 1024 cases enumerate all 2048 (mask, shape) points
+                for k in [2 * case, 2 * case + 1] {
+                    let lim = if k % 5 == 0 { Lim { max_arr: 1, ..Lim::default() } } else { Lim::default() };
+                    let b = Gen::new(rng).variant_mask_sweep(k % 2048);
+                    out.push(format!("dec Variant {} x{}", lim.show(), hex(&b)));
+                }
+                if case % 4 == 1 {
+                    let v = {
+                        let mut g = Gen::new(rng);
+                        g.lens = vec![0, 1, 2];
+                        g.arr_lens = vec![0, 1, 2];
+                        g.ill_formed = false;
+                        g.val(2)
+                    };
+                    if let Some(bytes) = v.try_encode() {
+                        for p in all_prefixes(&bytes, 48) {
+                            out.push(format!("dec {} {} x{}", v.type_name(), Lim::default().show(), hex(&p)));
+                        }
+                    }
+                }
+                if case % 4 == 3 {
+                    let names = dispatch::SCHEMAS;
+                    let name = names[(case / 4 * 13 + 1) % names.len()].0;
+                    let bytes = {
+                        let mut g = Gen::new(rng);
+                        g.lens = vec![0, 1, 2];
+                        g.struct_bytes(name, false).0
+                    };
+                    for p in all_prefixes(&bytes, 40) {
+                        out.push(format!("sdec {} {} x{}", name, Lim::default().show(), hex(&p)));
+                    }
                 }
             }
             // (iii) nesting families
@@ -419,7 +463,7 @@ impl Runner for R {
                     Some(Ok((v, pos))) => {
                         let e = Extent::of(&v);
                         let (re, _) = v.encode();
-                        let line = format!("ok {} x{}", pos, hex(&re));
+                        let line = format!("ok {} x{} = {}", pos, hex(&re), v.tree());
                         let verdict = if e.nest > lim.max_depth {
                             Verdict::fail("depth_limited", class, format!("accepted nesting {} > max depth {}", e.nest, lim.max_depth))
                         } else {
